@@ -1,5 +1,6 @@
 #!/bin/bash
-# confirm_seed.sh <worktree> <outdir>: confirm a seeded change (suite green with it, demo fails with it, demo passes without it)
+# confirm_seed.sh <worktree> <outdir>: confirm a seeded change (suite green with it, demo fails with it, demo passes without it;
+# for an added-API seed the demo passes with it - its assertions document the violation - and does not compile without it)
 wt=$1; out=$2
 cd "$wt" || exit 2
 export CARGO_NET_OFFLINE=true
@@ -12,7 +13,7 @@ with=$(cargo test --offline --test seed_demo 2>&1 | grep -E "^test result" | tai
 # refs/stash is shared between worktrees: revert with the diff itself, never with git stash
 git diff -- src shred-derive > /tmp/seed_change.$$.diff
 git apply -R /tmp/seed_change.$$.diff
-without=$(cargo test --offline --test seed_demo 2>&1 | grep -E "^test result" | tail -1)
+without=$(cargo test --offline --test seed_demo 2>&1 | grep -E "^test result|^error(\[E[0-9]+\])?:" | tail -1)
 git apply /tmp/seed_change.$$.diff && rm -f /tmp/seed_change.$$.diff
 echo "suite_with_change: $suite"
 echo "demo_with_change: $with"
